@@ -85,6 +85,13 @@ func checkC16(p *Prog, l *Ledger) {
 	// (a literal 0 and a computed 0 must behave alike); node-kind tests exist only in eval's dispatch and at the
 	// documented parser sites
 	checkNodeKindTests(p, l, "C16/S3-syntactic-origin")
+	// S2: what an operator yields depends on the operand values only (C02's table: `"" + 5` is the text "5" like every
+	// other concatenation), and a string literal denotes exactly the text between its quotes, like text from any other
+	// producer (C09/S6) — otherwise equal texts from different origins differ
+	l.AsOnly(map[string]string{"C02/I1-operator-table": "C16/S2-operators-by-value"}, func() { checkC02(p, l) })
+	if run := exploreScanToken(p); run != nil {
+		l.As(map[string]string{"C09/S6-string-value": "C16/S2-literal-text"}, func() { checkStringValue(p, l, run.m.G) })
+	}
 	for _, k := range []string{"number", "string", "bool", "array", "object", "function"} {
 		if len(u.ByKind[k]) == 0 {
 			l.Violate("C16/S1-kinds", "kind:"+k, "", "no producer of kind "+k+" found: universe extraction no longer matches the code")
